@@ -169,6 +169,8 @@ def shapes(tier):
     for cfg in cfgs:
         for kname in ("fixed", "var_minmax", "zero"):
             out.append(_shape(kname, True, True, "deadline", True, "none", cfg))
+    from checks import c03 as _c03d
+    out += _c03d.default_shapes(PROP)
     return out
 
 
